@@ -119,6 +119,19 @@ func (c *ScriptClient) SendBatch(hs []ReqHeader) error {
 	return nil
 }
 
+// SendFrames writes raw frames as one arrival batch where the transport supports it.
+func (c *ScriptClient) SendFrames(frames [][]byte) error {
+	if rc, ok := c.io.(*RawConn); ok {
+		return rc.WriteFrames(frames)
+	}
+	for _, f := range frames {
+		if err := c.io.WriteMessage(f); err != nil {
+			return err
+		}
+	}
+	return nil
+}
+
 // SendRaw writes arbitrary bytes as one frame.
 func (c *ScriptClient) SendRaw(b []byte) error { return c.io.WriteMessage(b) }
 
